@@ -1,9 +1,159 @@
-(* C15 - Random access agrees with scanning. Property theorems only. *)
+(* C15 - Random access agrees with scanning. Property theorems only.
+   Objects: a table is its fragment list (id, physical rows, deletion vector); a row is named by its
+   row address; [scan frs] is what an ordered full scan yields; [at_offset frs o] the o-th scan row.
+   Model: Core/Model_Deletion.v (OffsetMapper) and Core/Model_Take.v (row_offsets_to_row_addresses,
+   check_row_addrs, do_take_rows, take, take_scan, TakeBuilder::get_row_addrs). *)
 From LanceV Require Import Common.Base Core.Model_Deletion Core.Proofs_Deletion Core.Model_Take Core.Proofs_Take.
+From Coq Require Import Sorting.Sorted.
 Local Open Scope N_scope.
 
+(* ---- OffsetMapper ---- *)
+(* One call, any state reachable by earlier calls with smaller-or-equal offsets ([om_inv]), EVERY
+   deletion set: the result is the position of the o-th non-deleted row; no panic (no u32 overflow,
+   `right - left` never underflows, the assert_ne! never fires); termination within 34 loop
+   iterations (any fuel >= 34 gives the same answer); the state invariant is re-established. *)
+Theorem C15_map_offset : forall (D : dvec) (st : om_state) (lo o : N) (fuel : nat),
+  NoDup D -> om_inv D st lo -> lo <= o -> o + dv_len D + 1 < two32 -> (34 <= fuel)%nat ->
+  exists a st', map_offset_fuel fuel D st o = Ok (a, st') /\ is_nth_live D o a /\ om_inv D st' o.
+Proof. exact map_offset_correct. Qed.
+Print Assumptions C15_map_offset.
+
+(* A fresh mapper satisfies the invariant, and the specification determines the answer uniquely. *)
+Theorem C15_map_offset_spec_is_a_function : forall (D : dvec),
+  NoDup D -> om_inv D om_new 0 /\
+  (forall o, exists a, is_nth_live D o a) /\
+  (forall o a a', is_nth_live D o a -> is_nth_live D o a' -> a = a').
+Proof.
+  intros D ND. split; [exact (om_inv_new D ND)|]. split; [intro o; exact (nth_live_exists D o ND)|].
+  exact (nth_live_unique D).
+Qed.
+Print Assumptions C15_map_offset_spec_is_a_function.
+
+(* A mapper driven with ANY non-decreasing offset sequence (duplicates allowed). *)
+Theorem C15_map_offsets_monotone : forall (D : dvec) (offs : list N),
+  NoDup D -> StronglySorted N.le offs -> Forall (fun o => o + dv_len D + 1 < two32) offs ->
+  exists res, map_offsets D offs = Ok res /\ Forall2 (is_nth_live D) offs res.
+Proof. exact map_offsets_correct. Qed.
+Print Assumptions C15_map_offsets_monotone.
+
+(* ---- offsets -> addresses ---- *)
+(* EVERY fragment layout and EVERY offset list (unsorted, duplicates, out of range): the result is,
+   position by position in REQUEST order, the address a scan shows at that offset; tombstone past the end. *)
+Theorem C15_offsets_to_addresses : forall (frs : list frag) (offs : list N),
+  frags_wf frs = true -> scan_len frs < two64 ->
+  row_offsets_to_row_addresses frs offs = Ok (map (at_offset frs) offs).
+Proof. exact offsets_to_addresses_wf. Qed.
+Print Assumptions C15_offsets_to_addresses.
+
+(* ---- take by address (do_take_rows: contiguous / sorted / re-mapping paths) ---- *)
+(* Whatever is returned is exactly the requested rows that exist and are not deleted, in request
+   order, duplicates kept - for every address list, with or without the row-address column. *)
+Theorem C15_take_rows_sound : forall (frs : list frag) (addrs : list N) (wra : bool) (l : list N),
+  frags_wf frs = true -> do_take_rows frs addrs wra = Ok l -> l = filter (addr_live frs) addrs.
+Proof. exact take_rows_sound_wf. Qed.
+Print Assumptions C15_take_rows_sound.
+
+(* If every address names a physical slot the take succeeds (no error, no panic, on each of the three
+   paths); with the row-address column it fails exactly when a requested row is deleted. *)
+Theorem C15_take_rows_total : forall (frs : list frag) (addrs : list N),
+  frags_wf frs = true -> addrs <> [] -> forallb (addr_in_bounds frs) addrs = true ->
+  do_take_rows frs addrs false = Ok (filter (addr_live frs) addrs) /\
+  do_take_rows frs addrs true = (if forallb (addr_live frs) addrs then Ok addrs else Err).
+Proof. exact take_rows_total_wf. Qed.
+Print Assumptions C15_take_rows_total.
+
+(* Addresses of fragments that do not exist: dropped or reported as an error, never a panic, as long as
+   at least one address is in bounds and only the last may be u64::MAX. *)
+Theorem C15_take_rows_never_panics : forall (frs : list frag) (addrs : list N),
+  frags_wf frs = true ->
+  (forall a, In a addrs -> addr_in_bounds frs a = true \/ find_frag frs (addr_frag a) = None) ->
+  (exists a, In a addrs /\ addr_in_bounds frs a = true) ->
+  Forall (fun a => a + 1 < two64) (removelast addrs) ->
+  (do_take_rows frs addrs false = Ok (filter (addr_live frs) addrs) \/
+   (do_take_rows frs addrs false = Err /\ forallb (addr_in_bounds frs) addrs = false)).
+Proof. exact take_rows_no_panic_wf. Qed.
+Print Assumptions C15_take_rows_never_panics.
+
+(* ---- take by offset ---- *)
+(* (1) any Ok result is the scan rows at the in-range offsets, in request order, duplicates kept;
+   (2) outside the known class the call IS Ok with those rows, or an error caused by an out-of-range
+       offset; (3) all offsets in range: Ok with exactly one row per offset. *)
+Theorem C15_take_by_offset : forall (frs : list frag) (offs : list N),
+  frags_wf frs = true -> scan_len frs < two64 ->
+  (forall l, take frs offs = Ok l -> l = expected_rows frs offs) /\
+  (Known_C15_oob_offset_not_last frs offs = false -> take_agrees_with_scan frs offs) /\
+  (forallb (in_range frs) offs = true -> take frs offs = Ok (map (at_offset frs) offs)).
+Proof. exact take_by_offset_wf. Qed.
+Print Assumptions C15_take_by_offset.
+
+(* The faithful model (and the code: reproduced, see KNOWN_FINDINGS) violates the property inside the
+   class: take([3, 0]) on a 3-row table panics instead of returning row 0 or an error. *)
+Theorem C15_oob_offset_not_last_refuted :
+  exists frs offs, frags_wf frs = true /\ scan_len frs < two64 /\
+    Known_C15_oob_offset_not_last frs offs = true /\ ~ take_agrees_with_scan frs offs.
+Proof. exact oob_offset_not_last_refuted. Qed.
+Print Assumptions C15_oob_offset_not_last_refuted.
+
+(* ---- take_scan ---- *)
+Theorem C15_take_scan : forall (frs : list frag) (ranges : list (N * N)),
+  frags_wf frs = true -> scan_len frs < two64 -> Forall (fun r => snd r <= scan_len frs) ranges ->
+  take_scan frs ranges = map (fun r => Ok (map (at_offset frs) (N_span (fst r) (snd r)))) ranges.
+Proof. exact take_scan_wf. Qed.
+Print Assumptions C15_take_scan.
+
+(* ---- take by stable row id ---- *)
+(* The row id index is C34's object; here it is any function that answers only with addresses of rows a
+   scan shows. Then take_rows returns, for the requested ids in request order (duplicates kept, unknown
+   ids dropped), exactly the rows the index maps them to. *)
+Theorem C15_take_by_row_id : forall (frs : list frag) (get : N -> option N) (ids : list N),
+  frags_wf frs = true -> (forall id a, get id = Some a -> In a (scan frs)) ->
+  take_rows_by_id (Some get) frs ids false = Ok (get_row_addrs (Some get) ids) /\
+  (forall a, In a (get_row_addrs (Some get) ids) <-> exists id, In id ids /\ get id = Some a).
+Proof. exact take_by_row_id_wf. Qed.
+Print Assumptions C15_take_by_row_id.
+
+(* ---- the columns a scan reports resolve back to the same row ---- *)
+Theorem C15_scan_rows_resolve : forall (frs : list frag),
+  frags_wf frs = true -> scan_len frs < two64 ->
+  (forall a, In a (scan frs) -> take_rows_by_id None frs [a] false = Ok [a] /\ take_rows_by_id None frs [a] true = Ok [a]) /\
+  (forall o, o < scan_len frs -> take frs [o] = Ok [at_offset frs o] /\ In (at_offset frs o) (scan frs)) /\
+  (forall a, addr_in_bounds frs a = true -> ~ In a (scan frs) -> take_rows_by_id None frs [a] false = Ok []).
+Proof. exact scan_rows_resolve_wf. Qed.
+Print Assumptions C15_scan_rows_resolve.
+
+(* ---- regression / non-vacuity ---- *)
 Theorem C15_rust_unit_tests :
   map_offsets [3; 5] [0; 1; 2; 3; 4; 5; 6] = Ok [0; 1; 2; 4; 6; 7; 8] /\
   map_offsets [0; 1; 2] [0; 1; 2; 3; 4; 5; 6] = Ok [3; 4; 5; 6; 7; 8; 9].
 Proof. exact rust_unit_tests. Qed.
 Print Assumptions C15_rust_unit_tests.
+
+(* small-universe sweep kept as a test (64 deletion sets x 36 ordered offset pairs) *)
+Example C15_sweep : sweep_ok = true.
+Proof. exact (proj2 (proj2 sweep_small_universe)). Qed.
+
+(* the hypotheses are satisfiable by a non-trivial table: three fragments, deletions in two of them,
+   non-monotone fragment ids; requests with duplicates, unsorted, across fragment boundaries *)
+Definition ex_table : list frag :=
+  [ {| f_id := 0; f_phys := 10; f_del := Some [3; 5] |};
+    {| f_id := 4; f_phys := 6;  f_del := Some [0; 1; 2] |};
+    {| f_id := 1; f_phys := 10; f_del := None |} ].
+Example C15_nonvacuous :
+  frags_wf ex_table = true /\ scan_len ex_table = 21 /\
+  Known_C15_oob_offset_not_last ex_table [20; 0; 3; 3; 8; 9; 17; 7] = false /\
+  take ex_table [20; 0; 3; 3; 8; 9; 17; 7]
+    = Ok [4294967305; 0; 4; 4; 17179869187; 17179869188; 4294967302; 9] /\
+  row_offsets_to_row_addresses ex_table [21; 2] = Ok [TOMBSTONE_ROW; 2] /\
+  take ex_table [2; 21] = Err /\ take ex_table [21; 2] = Panic /\
+  do_take_rows ex_table [6; 3; 4294967296; 3; 17179869184; 17179869187] false = Ok [6; 4294967296; 17179869187] /\
+  (exists st, map_offset [3; 5] om_new 3 = Ok (4, st) /\ om_inv [3; 5] st 3) /\
+  NoDup [3; 5].
+Proof.
+  repeat split; try (vm_compute; reflexivity).
+  - destruct (map_offset_correct [3; 5] om_new 0 3 MAP_FUEL) as [a [st' [E [_ I]]]];
+      [repeat constructor; cbn; intuition discriminate | apply om_inv_new; repeat constructor; cbn; intuition discriminate
+      | lia | vm_compute; reflexivity | unfold MAP_FUEL; lia |].
+    exists st'. unfold map_offset. split; [|exact I].
+    rewrite E. f_equal. f_equal. vm_compute in E. inversion E. reflexivity.
+  - repeat constructor; cbn; intuition discriminate.
+Qed.
